@@ -41,7 +41,18 @@ const c07Setup = `(do
   (def lp-thread (fn [n] (-> n (+ 1) (lp-thread))))
   (def lp-sleep (fn [n] (do (sleep 7) (lp-sleep (+ n 1)))))
   (def lp-swap (let [a (atom 0)] (fn [n] (do (swap! a (fn [v] (+ v 1))) (lp-swap (+ n 1))))))
+  (def lp0 (fn [] (lp0)))
+  (def lpx (fn [x] (lpx x)))
+  (def pa (fn [x] (pb x)))
+  (def pb (fn [x] (pa x)))
+  (def lpd (fn [x] (do 1 x (lpd x))))
+  (def lpl (fn [x] (let [y x] (lpl y))))
+  (def lpi (fn [x] (if x (lpi x) (lpi x))))
   nil)`
+
+// c07Prelude runs before the main program under a context of its own that never ends: a pending future
+// and a second one whose body is already blocked dereferencing it when the main evaluation starts.
+const c07Prelude = `(do (def shared-pending (future (gate! "never"))) (def shared-waiter (future @shared-pending)) nil)`
 
 type c07Gen struct {
 	tp     *Tape
@@ -50,8 +61,10 @@ type c07Gen struct {
 }
 
 var c07Leaves = []string{"(lp 0)", "(lp-nt 0)", "(mm)", "(lp-cond 0)", "(lp-and 0)", "(lp-thread 0)", "(lp-sleep 0)", "(sleep 10000000)", "(lp-swap 0)",
-	"(apply lp (list 0))", `@(future (gate! "never"))`}
-var c07LeafNames = []string{"tail", "nontail", "macro", "cond", "and-or", "thread", "sleep-loop", "sleep", "swap-loop", "apply", "deref-ignoring-body"}
+	"(apply lp (list 0))", `@(future (gate! "never"))`,
+	"(lp0)", "(lpx 1)", "(pa 1)", "(lpd 1)", "(lpl 1)", "(lpi true)", "@shared-pending"}
+var c07LeafNames = []string{"tail", "nontail", "macro", "cond", "and-or", "thread", "sleep-loop", "sleep", "swap-loop", "apply", "deref-ignoring-body",
+	"tail-noargs", "tail-symbol-arg", "mutual-symbol-arg", "tail-do-atoms", "tail-let-symbol", "tail-if-symbol", "deref-shared-pending"}
 
 // endless returns an expression that never terminates on its own.
 func (g *c07Gen) endless(depth int, allowTry bool) string {
@@ -163,6 +176,7 @@ type c07World struct {
 	cancel   context.CancelFunc
 	cancelAt int64 // step at which cancel() is called (step modes)
 	caller   *Task
+	prelude  bool
 	tStar    time.Duration // first instant the context was seen done (-1: not yet)
 	tStarSet bool
 	after    int64 // steps of the calling thread after T*
@@ -196,12 +210,32 @@ func (w *c07World) OnStep(s *Sim, t *Task, ctx context.Context, ast, env interfa
 }
 
 func (w *c07World) callerFn(t *Task) {
+	if w.prelude {
+		// an earlier evaluation under an unrelated context that never ends
+		if _, err := lisp.EVAL(context.Background(), mustRead(c07Prelude), w.env); err != nil {
+			panic("c07 prelude: " + err.Error())
+		}
+		// let the second future's body reach its deref before the main evaluation starts
+		w.s.WaitUntil("prelude-settled", w.preludeSettled)
+	}
 	w.s.Rec("inv", "main", "", 0)
 	res, err := lisp.EVAL(w.ctx, w.ast, w.env)
 	recRet(w.s, "main", res, err, w.ctx.Err() != nil)
 	w.noteReturn()
 	// the run is over: let bodies that ignore cancellation finish
 	w.s.OpenGate(`"never"`)
+}
+
+// preludeSettled: the waiter's body is blocked in its deref (evaluated by the scheduler while nobody runs).
+//
+//go:norace
+func (w *c07World) preludeSettled() bool {
+	for _, t := range w.s.tasks {
+		if t.IsBody && t.state == tsBlocked {
+			return true
+		}
+	}
+	return false
 }
 
 //go:norace
@@ -249,6 +283,7 @@ func (c07) Run(tp *Tape, opt RunOpt) *RunOut {
 		panic("c07 setup: " + err.Error())
 	}
 	w := &c07World{s: s, env: e, ast: ast, bound: bound}
+	w.prelude = strings.Contains(src, "shared-pending")
 	// ---- the fault: when and how the context ends ----
 	modes := []string{"deadline", "cancel-at-step", "parent-cancel-at-step", "ended-at-entry", "deadline-parent"}
 	w.mode = modes[tp.Weighted(LaneFault, []int{5, 4, 2, 1, 2})]
